@@ -4,6 +4,8 @@
        → (ok <(some i)|none> (<covers_i>*) (<resolves_i>*))
      i = construction index of the feed `Importer.match` returns (none = MissingError); per feed of the pool (in
      construction order) whether its matcher accepts the statement and whether its parser resolves all sources
+   (c09seq (<statement>*) <pool>) → (ok (<(some i)|none>*))
+     the answers of ONE importer instance to the request history (`matchSeq`, with the lru_cache state)
    every line may be wrapped as (let ((x sexp) …) body), `$x` atoms are substituted. -/
 import ForML.Model.Sexp
 import ForML.Model.Dsl
@@ -22,6 +24,14 @@ def stepC09 (line : Sexp) : Sexp :=
           Sexp.ofOption Sexp.ofNat (select pool s),
           .list (pool.map (fun f => Sexp.ofBool (covers f.sources s))),
           .list (pool.map (fun f => Sexp.ofBool (resolves f.sources s)))]
+      | _, _ => .atom "bad-op"
+    | .list [.atom "c09seq", .list stmts, .list slots] =>
+      match stmts.mapM Source.ofSexp, slots.mapM Slot.ofSexp with
+      | some ss, some pool =>
+        .list [.atom "ok", .list ((matchSeq pool ss).map (fun r =>
+          match r with
+          | .ok i => Sexp.ofOption Sexp.ofNat (some i)
+          | .error _ => Sexp.ofOption Sexp.ofNat none))]
       | _, _ => .atom "bad-op"
     | _ => .atom "bad-op"
 
